@@ -239,6 +239,69 @@ func (fc *FuncCtx) theoryCall(st *State, bind string, fn *types.Func, recv *Val,
 			return boolRes(Eq(x, args[0].T)), true
 		}
 		return Val{}, false
+	case "bigint": // arbitrary-precision integers (num.Int / num.Nat / num.NatPlus / num.Uint / numct.Nat / big.Int) as mathematical integers
+		if recv.T == nil || recv.T.Sort.Kind != "Int" {
+			return Val{}, false
+		}
+		x := recv.T
+		val := func(t *Term) (Val, bool) { return Val{T: t, Typ: resT}, true }
+		twopow := func(k *Term) *Term { return App("g$twopow", SInt, k) }
+		switch name {
+		case "Abs":
+			return val(Ite(Ge(x, IntLit(0)), x, Sub(IntLit(0), x)))
+		case "Nat", "Lift", "Clone", "Value", "Big", "Int":
+			return val(x)
+		case "IsNegative":
+			return boolRes(Lt(x, IntLit(0))), true
+		case "IsZero":
+			return boolRes(Eq(x, IntLit(0))), true
+		case "IsOne":
+			return boolRes(Eq(x, IntLit(1))), true
+		case "IsEven":
+			return boolRes(Eq(Mod(x, IntLit(2)), IntLit(0))), true
+		case "IsOdd":
+			return boolRes(Eq(Mod(x, IntLit(2)), IntLit(1))), true
+		case "Mod":
+			// Euclidean residue in [0, m)
+			return val(Mod(x, args[0].T))
+		case "Add":
+			return val(Add(x, args[0].T))
+		case "Sub":
+			return val(Sub(x, args[0].T))
+		case "Mul":
+			return val(Mul(x, args[0].T))
+		case "Neg":
+			return val(Sub(IntLit(0), x))
+		case "Equal":
+			return boolRes(Eq(x, args[0].T)), true
+		case "Rsh":
+			return val(Div(x, twopow(args[0].T)))
+		case "Lsh":
+			return val(Mul(x, twopow(args[0].T)))
+		case "Bit":
+			// bit i of |x| (math/big semantics for non-negative x)
+			return val(Mod(Div(x, twopow(args[0].T)), IntLit(2)))
+		case "Byte":
+			if n, ok := litInt(args[0].T); ok && n.Sign() == 0 {
+				return val(Mod(Ite(Ge(x, IntLit(0)), x, Sub(IntLit(0), x)), IntLit(256)))
+			}
+		}
+		return Val{}, false
+	case "bigintS": // structures of big integers: constructors from other big-integer kinds
+		switch name {
+		case "FromNat", "FromInt", "FromUint":
+			if tup, ok := resT.(*types.Tuple); ok && tup.Len() == 2 && len(args) == 1 && args[0].T != nil && args[0].T.Sort.Kind == "Int" {
+				errv := fc.freshConst("err", SV)
+				pos := strings.Contains(tup.At(0).Type().String(), "NatPlus")
+				if pos {
+					st.assume(Eq(Eq(errv, Const("nil", SV)), Gt(args[0].T, IntLit(0))))
+				} else {
+					st.assume(Eq(Eq(errv, Const("nil", SV)), Ge(args[0].T, IntLit(0))))
+				}
+				return Val{Tuple: []Val{{T: args[0].T, Typ: tup.At(0).Type()}, {T: errv, Typ: tup.At(1).Type()}}}, true
+			}
+		}
+		return Val{}, false
 	case "groupS": // the group structure object
 		val := func(t *Term) (Val, bool) { return Val{T: t, Typ: resT}, true }
 		switch name {
